@@ -586,6 +586,20 @@ func TestWritersRacingCommits(t *testing.T) {
 			e.fatalf("final compaction: %v", err)
 		}
 		e.check("after final compaction")
+		// bounded progress: no snapshot, no unfinished writer: after a pass every family directory holds exactly
+		// the tables of its current version
+		for _, n := range e.famNames {
+			kv.VerifDeleteObsoleteFiles(e.fams[n])
+			dir, err := tablesInDir(filepath.Join(e.storePath, n))
+			if err != nil {
+				e.fatalf("harness: %v", err)
+			}
+			if cur := currentTables(e.fams[n]); fmt.Sprint(keysOfInt(dir)) != fmt.Sprint(keysOfInt(cur)) {
+				e.fatalf("end of history: the directory of %s holds tables %v, its current version %v", n, keysOfInt(dir), keysOfInt(cur))
+			}
+		}
+		e.check("after final obsolete-file passes")
+		e.classes["end-of-history-directory-is-exactly-the-current-version"]++
 		e.logf("reopen")
 		if err := kv.GetStoreManager().CloseStore(e.storePath); err != nil {
 			e.fatalf("close: %v", err)
